@@ -269,6 +269,10 @@ def check_names(ctx, names):
             ctx.counterexample('C16/names-not-case-sensitive', 'variables %r and %r are not distinct: %r' % (a, b, evs[:6]), {'text': text})
 
 
+TW = ('define twice with a begin return {a * 2} end define show with v begin print v end '
+      'define both with p q begin print p print q end ')
+
+
 def check_strings(ctx, thorough):
     rng = ctx.rng
     alpha = ''.join(chr(i) for i in range(32, 127) if chr(i) != '"') + '\t\x0b\x0c\x1c\x1d\x1e\x1f\r'
@@ -286,7 +290,13 @@ def check_strings(ctx, thorough):
             if p is None:
                 ctx.counterexample('C16/string-equal-to-routine-name', 'a quoted string equal to the name of a routine is not accepted as a value: %s' % e.strip()[:80], {'text': text})
         for text, expect, tag in [('print "%s"' % s, ['O|' + lang.show_val(s)], 'alone'),
-                                  ('assign v "%s" print v print "z"' % s, ['O|' + lang.show_val(s), 'O|' + lang.show_val('z')], 'followed-by-string')]:
+                                  ('assign v "%s" print v print "z"' % s, ['O|' + lang.show_val(s), 'O|' + lang.show_val('z')], 'followed-by-string'),
+                                  # as the argument of a routine call, with and without the optional brackets, first and last
+                                  ('define sh with t begin print t end sh "%s"\nprint "z"' % s, ['O|' + lang.show_val(s), 'O|' + lang.show_val('z')], 'call-argument'),
+                                  ('define sh with t begin print t end [sh "%s"]\nprint "z"' % s, ['O|' + lang.show_val(s), 'O|' + lang.show_val('z')], 'bracketed-call-argument'),
+                                  ('define sh2 with t u begin print t print u end sh2 "%s" 5\nsh2 6 "%s"' % (s, s),
+                                   ['O|' + lang.show_val(s), 'O|i5', 'O|i6', 'O|' + lang.show_val(s)], 'call-argument-of-two'),
+                                  ('printf "{}|{}" "%s" 7' % s, ['O|' + lang.show_val(s + '|7')], 'printf-value')]:
             ctx.count()
             ctx.nontriv(text)
             try:
@@ -374,6 +384,11 @@ def run(ctx):
                  ('hue 5#comment', 'hue 5'),
                  ('define f with a begin print a end define g [f 1] g', 'define f with a begin print a end define g f 1 g'),
                  ('define f begin print 1 end define g [f] [g]', 'define f begin print 1 end define g f g'),
+                 # optional brackets round a call statement whose argument is itself a bracketed call
+                 (TW + 'show [twice 5]', TW + '[show [twice 5]]'), (TW + 'show {[twice 5] + 1}', TW + '[show {[twice 5] + 1}]'),
+                 (TW + 'if 1 show [twice 4]', TW + 'if 1 [show [twice 4]]'), (TW + 'both 3 [twice 1]', TW + '[both 3 [twice 1]]'),
+                 (TW + 'both [twice 1] [twice [twice 2]]', TW + '[both [twice 1] [twice [twice 2]]]'),
+                 (TW + 'repeat 2 begin show [twice 5] end', TW + 'repeat 2 begin [show [twice 5]] end'),
                  ('hue {(5)}', 'hue {{5}}'), ('assign x 2 hue {2 * (x + 1)}', 'assign x 2 hue {2 * {x + 1}}'), ('hue {5-3}', 'hue {5 - 3}'), ('hue {5/3}', 'hue {5 / 3}')]:
         ctx.count()
         ka, _ = compile_key(a)
